@@ -1,7 +1,7 @@
 (* C05  script and style never survive unless AllowUnsafe(true).
    Proved for every policy value with allowUnsafe = false (a superset of what the builder can
    assemble: tables may name script/style, patterns may match them, the skip set may lack them)
-   and every token list.  For policies that in addition keep no comments and allow no other
+   and every token list.  For policies that in addition allow no other
    raw-text element, the same is proved of the tokens a tokenizer reads from the output bytes
    (C05_output_tokens). *)
 From Coq Require Import List NArith Bool.
@@ -54,8 +54,8 @@ Section C05.
   Theorem C05_output_tokens : plain_policy I p -> forall s t, In t (tokenize (sanitize_bytes I p s)) ->
     match t with
     | TStart n _ | TEnd n | TSelf n _ => is_script_or_style n = false
-    | TText _ => True
-    | TComment _ | TDoctype _ => False
+    | TText _ | TComment _ => True
+    | TDoctype _ => False
     end.
   Proof.
     intros Hplain s t Hin. pose proof (output_token_provenance M U R I p Hplain s t Hin) as H.
